@@ -334,7 +334,11 @@ def main(ck, tier, w, pid='C07'):
     # dumped into ONE folder (the dump of s..e starts from nothing, whatever earlier dumps lie there)
     rq = random.Random('%d-shapes' % seed)
     pa, pb_, pc = (btc.p2pkh(rq.randbytes(20)) for _ in range(3))
-    fund = {'ver': 1, 'ins': [{'txid': rq.randbytes(32), 'idx': 0, 'sig': b'', 'seq': 0}], 'outs': [{'val': 5000 + i, 'spk': [pa, pb_, pc][i % 3]} for i in range(6)], 'lock': 0}
+    # (its counts and one script length are stored with non-minimal CompactSize encodings: the txid its spenders name is the hash of
+    # the bytes as stored)
+    fund = {'ver': 1, 'ins': [{'txid': rq.randbytes(32), 'idx': 0, 'sig': b'', 'seq': 0, 'w': 3}], 'outs': [{'val': 5000 + i, 'spk': [pa, pb_, pc][i % 3]} for i in range(6)], 'lock': 0,
+            'w_in': 3, 'w_out': 5}
+    fund['outs'][4]['w'] = 9
     ft = btc.txid(fund)
     null_in = {'txid': b'\0' * 32, 'idx': 0xffffffff, 'sig': b'\x01\x01', 'seq': 0xffffffff}
     sp1 = {'ver': 1, 'ins': [null_in, {'txid': ft, 'idx': 0, 'sig': b'', 'seq': 0}, {'txid': ft, 'idx': 1, 'sig': b'', 'seq': 0}], 'outs': [{'val': 1, 'spk': pc}], 'lock': 1}
